@@ -18,7 +18,7 @@ from .common import load_configs, guarded, short_ty, TRUSTED
 
 PID = 'C04'
 NT = midi.NEWTYPE_PATH            # short name -> path
-FLOORS = {'newtypes': 6, 'newtype_ctor_sites_K1': 190, 'from_impls_K1': 78, 'tryfrom_impls_K1': 64,
+FLOORS = {'newtypes': 6, 'newtype_ctor_sites_K1': 170, 'from_impls_K1': 72, 'tryfrom_impls_K1': 60,
           'unsafe_ctor_fns_K1': 8, 'fromstr_impls_K1': 6}
 
 
@@ -408,4 +408,27 @@ def run(tier, cmd):
         if cfg in ('K1', 'K2') or tier == 'thorough':
             guarded(chk, '%s/exactness/%s' % (PID, cfg), 'R4.4 exactness', lambda F=F: r44_exactness(chk, F))
     guarded(chk, '%s/cfg-hygiene' % PID, 'R4.5 configuration hygiene', lambda: r45_cfg_hygiene(chk, Fs))
+    if tier == 'thorough':
+        guarded(chk, '%s/witness' % PID, 'E4 compile-fail witness', lambda: witnesses(chk))
     return chk.finish()
+
+
+def witnesses(chk, prefix=None):
+    """E4: outside-user compile-fail witnesses with compiling twins (nightly doc tests)"""
+    from .. import witness
+    res, out = witness.run()
+    want = ['w01_newtype_tuple_ctor_private', 'w02_newtype_field_private', 'w03_new_unchecked_unsafe', 'w04_from_bytes_unchecked_unsafe',
+            'w05_raw_tuple_private', 'w06_cc14_fields_private', 'w07_pnm_fields_private', 'w08_scanner_storage_private', 'w09_no_from_i8_for_u14']
+    twins = [w.replace('w', 't', 1) for w in want] + ['t10_copy_types']
+    for n in want + twins:
+        if prefix and not any(n[1:3] == p for p in prefix):
+            continue
+        r = res.get(n)
+        if r is None:
+            chk.ob('%s/witness/%s' % (chk.pid, n), 'E4 compile-fail witness', 'unproven', why='witness did not run: %s' % out[-300:], nontrivial=False)
+            continue
+        kind, ok = r
+        chk.ob('%s/witness/%s' % (chk.pid, n), 'E4 compile-fail witness', 'proved' if ok else 'refuted',
+               expected='fails to compile with the documented error code' if kind == 'compile_fail' else 'compiles (twin)',
+               found='as expected' if ok else 'not as expected', nontrivial=False,
+               why='' if ok else ('the violating program compiles (or fails with a different error)' if kind == 'compile_fail' else 'the legal twin does not compile'))
